@@ -120,7 +120,7 @@ fn run_twice(opts1: Opts, opts2: Opts, t: &Tree, cx: &mut Cx) -> CaseResult {
 }
 
 fn run_hist(h: &History, cx: &mut Cx) -> CaseResult {
-    let mut w = World::new(&cx.scratch, &h.initial);
+    let mut w = World::for_history(&cx.scratch, h);
     let mut backups = 0;
     let mut dedup_seen = false;
     for (i, op) in h.ops.iter().enumerate() {
@@ -311,6 +311,7 @@ fn enumerate(_tier: Tier, idx: u32, of: u32, cx: &mut Cx) -> CaseResult {
             meta: crate::probes::plain_meta(),
         }],
         opts: o,
+        id_spread: 1,
     };
     let sub = cx.dir("resume-200-hunks");
     std::fs::create_dir_all(&sub).unwrap();
